@@ -55,9 +55,7 @@ class Harness:
         A = base.import_dd('dd.autoref')
         hnode = z3.Int('hnode')
         # the dd.autoref wrapper of this manager, built the way autoref.BDD.__init__ builds it
-        abdd = A.BDD.__new__(A.BDD)
-        abdd._bdd = bdd
-        abdd.vars = bdd.vars
+        abdd = base.make_autoref(A, bdd)
         if self.handle:
             c.assume(z3.And(hnode >= 2, hnode <= N, z3.Select(st0.P, hnode), z3.Select(ext, hnode) > 0))
             fh = A.Function.__new__(A.Function)
@@ -141,9 +139,7 @@ def replay(case):
     import dd.autoref as A
     hnode = case['args'].get('hnode')
     fh = None
-    abdd = A.BDD.__new__(A.BDD)
-    abdd._bdd = bdd
-    abdd.vars = bdd.vars
+    abdd = base.make_autoref(A, bdd)
     if hnode in held:
         fh = A.Function.__new__(A.Function)
         fh.node, fh.bdd, fh.manager = hnode, abdd, bdd
